@@ -1070,6 +1070,14 @@ func genTemplate(r *common.Rand) Case {
 			{Kind: "s", Name: t + "/l", Target: "b/b/s/" + strings.TrimSuffix(ups(1+r.Intn(3)), "/")},
 			{Kind: "d", Name: t + "/l", Mode: 0o700},
 			{Kind: "r", Name: t + "/l/" + fin, Tag: 5, Mode: 0o600}}
+		if r.Bool() {
+			// a recorded (empty) directory replaced by a link later in the same archive: the modes
+			// restored after the last entry must skip it
+			es = []Entry{es[0], es[1], {Kind: "d", Name: t + "/e", Mode: 0o700}, {Kind: "d", Name: t + "/g/h", Mode: 0o711},
+				{Kind: "s", Name: t + "/e", Target: "b/b/s/" + strings.TrimSuffix(ups(1+r.Intn(3)), "/")},
+				{Kind: "s", Name: t + "/g/h", Target: "../b/b/s/" + strings.TrimSuffix(ups(2+r.Intn(2)), "/")},
+				{Kind: "d", Name: t + "/k", Mode: 0o500}, {Kind: "r", Name: t + "/k/f", Tag: 5, Mode: 0o400}}
+		}
 		c.Pushes = []Push{{Kind: "U", Title: t, Entries: es}}
 	case 8: // links made by the user in the working directory are not followed either
 		c.Origin = "tpl-user-link"
